@@ -1,5 +1,7 @@
 package p9p
 
+import "context"
+
 // C07 - flush cancels the request, silences its reply and frees the tag safely.
 
 // Request A (tag t) is flushed by Tflush(oldtag o) with o symbolic; A's handler
@@ -187,4 +189,59 @@ func VerifC07_FlushThenTwo() {
 	vAssert(seenB == 1 && seenC == 1, "C07: each later request is answered exactly once")
 	s.vNoMoreReplies("C07: no reply to a flushed request is sent after the flush was acknowledged")
 	vReach("c07.thentwo")
+}
+
+// The same history through the real ServeConn (whatever it sets up for the
+// connection) over an in-memory pipe, driven frame by frame from a raw channel.
+func VerifC07_FlushThenTwoReal() {
+	ca, cb := newVPipe()
+	h := newVSrvHandler(3)
+	h.honour[0] = false
+	ctx, cancel := context.WithCancel(vBG)
+	defer cancel()
+	go ServeConn(ctx, cb, h)
+	ch := NewChannel(ca, DefaultMSize)
+	send := func(fc *Fcall) { vAssert(ch.WriteFcall(vBG, fc) == nil, "C07: the request is written") }
+	recv := func() *Fcall {
+		fc := new(Fcall)
+		vAssert(ch.ReadFcall(vBG, fc) == nil, "C07: a reply is read")
+		return fc
+	}
+	send(&Fcall{Type: Tversion, Tag: NOTAG, Message: MessageTversion{MSize: uint32(DefaultMSize), Version: DefaultVersion}})
+	rv := recv()
+	vAssert(rv.Type == Rversion, "C07: the handshake succeeds")
+	payA, payB, payC := uint32(11), uint32(22), uint32(33)
+	send(vReq(0, 5, 0))
+	<-h.started
+	send(&Fcall{Type: Tflush, Tag: 9, Message: MessageTflush{Oldtag: 5}})
+	r := recv()
+	vAssert(r.Tag == 9 && r.Type == Rflush, "C07: flush of an outstanding request is acknowledged with Rflush")
+	tb := Tag([]uint16{5, 6}[ndChoice("reuse", 2)])
+	send(vReq(1, tb, 1))
+	<-h.started
+	send(vReq(2, 7, 2))
+	<-h.started
+	h.release[0] <- vResFor(0, payA, "")
+	vDrain()
+	h.release[1] <- vResFor(0, payB, "")
+	h.release[2] <- vResFor(0, payC, "")
+	seenB, seenC := 0, 0
+	for i := 0; i < 2; i++ {
+		r := recv()
+		rw, ok := r.Message.(MessageRwrite)
+		vAssert(ok, "C07: later requests receive replies of their own kind")
+		if !ok {
+			continue
+		}
+		vAssert(rw.Count != payA, "C07: no reply to the flushed request is sent after the flush was acknowledged (its result reached another request)")
+		if r.Tag == tb && rw.Count == payB {
+			seenB++
+		} else if r.Tag == 7 && rw.Count == payC {
+			seenC++
+		} else {
+			vFail("C07: a later request receives its own reply (tag and result)")
+		}
+	}
+	vAssert(seenB == 1 && seenC == 1, "C07: each later request is answered exactly once")
+	vReach("c07.thentwo.real")
 }
